@@ -32,13 +32,18 @@ Fixpoint drop_prefix (a b : str) : option str :=
   | _ :: _, [] => None
   end.
 
+(* linear-time reversal (List.rev is quadratic once extracted); equal to List.rev *)
+Definition frev {A : Type} (l : list A) : list A := rev_append l [].
+Lemma frev_eq {A : Type} (l : list A) : frev l = rev l.
+Proof. unfold frev. symmetry. apply rev_alt. Qed.
+
 Definition has_prefix (a b : str) : bool :=
   match drop_prefix a b with Some _ => true | None => false end.
 
 (* Go: strings.HasSuffix(s, suf) and s[:len(s)-len(suf)] *)
 Definition drop_suffix (suf s : str) : option str :=
-  match drop_prefix (rev suf) (rev s) with
-  | Some r => Some (rev r)
+  match drop_prefix (frev suf) (frev s) with
+  | Some r => Some (frev r)
   | None => None
   end.
 
@@ -131,7 +136,7 @@ Fixpoint list_eqb {A} (eqb : A -> A -> bool) (a b : list A) : bool :=
 
 (* trailing/leading helpers *)
 Definition last_byte (s : str) : option N :=
-  match rev s with [] => None | x :: _ => Some x end.
+  match frev s with [] => None | x :: _ => Some x end.
 
 Definition first_byte (s : str) : option N :=
   match s with [] => None | x :: _ => Some x end.
